@@ -276,3 +276,37 @@ def check(ctx, world):
     ctx.ob("P7", "%s.add" % base_cls.name, ok,
            "element addition uses only the complete formula %s" % sorted(used) if ok else
            "element addition uses %s; only the complete formula %s is valid for arbitrary operands" % (sorted(used), sorted(complete)))
+
+
+def thorough(ctx, world):
+    """Independent re-derivation of the formula classification with sympy (tooling venv)."""
+    import json
+    import shutil
+    import subprocess
+    import os
+    ev = session.new_ev(world)
+    m, consts = gm.ed_consts(world, ev)
+    qn, Q = gm.field_prime(world, ev)
+    dn, d = gm.curve_d(world, ev)
+    forms = gm.formula_functions(world, ev)
+    vt = shutil.which("python3-vt")
+    if not vt:
+        ctx.note("thorough: python3-vt (sympy) not available; independent re-derivation skipped")
+        return
+    srcs = {}
+    for qual in forms:
+        f = gm.func_by_qual(world, qual)
+        srcs[qual] = ast.get_source_segment(m.src.decode(), f.node)
+    req = {"Q": str(Q), "d": str(d), "consts": {k: str(v) for k, v in consts.items()}, "functions": srcs}
+    here = os.path.dirname(os.path.dirname(os.path.abspath(__file__)))
+    p = subprocess.run([vt, os.path.join(here, "sympy_check.py")], input=json.dumps(req), stdout=subprocess.PIPE,
+                       stderr=subprocess.PIPE, universal_newlines=True, timeout=900)
+    if p.returncode != 0:
+        ctx.note("thorough: sympy re-derivation failed to run: %s" % p.stderr.strip()[-200:])
+        return
+    res = json.loads(p.stdout)
+    for qual, info in sorted(forms.items()):
+        k1, k2 = info.get("kind"), res.get(qual, {}).get("kind")
+        ctx.ob("P-sympy", qual, k1 == k2,
+               "sympy (Groebner basis of the curve ideal, modulus Q) independently classifies the function as %s" % k2 if k1 == k2 else
+               "sa/poly.py says %s, sympy says %s (%s)" % (k1, k2, res.get(qual)))
